@@ -53,7 +53,7 @@ def h_constant_counting(eng):
     eqs = [eq_of(s, c) for s in p]
     va1, va2 = variable("a1"), variable("a2")
     pre_const = variable("k0")
-    model = VObj(VClass("Model"), {"equations": VList(eqs), "alg_states": VList([va1, va2]), "constants": VList([pre_const])})
+    model = M.new_model(eng, {"equations": VList(eqs), "alg_states": VList([va1, va2]), "constants": VList([pre_const])})
     eng.exec_fragment(MODEL, "Model._simplify_once", M.block_selector("eliminate_constant_assignments"),
                       {"self": model, "options": VDict([("eliminate_constant_assignments", True)])}, label="eliminate-constant-assignments")
     eng.cover("count.const")
@@ -86,7 +86,7 @@ def h_eliminable_counting(eng):
     eng.call_contracts["extract_assignment"] = extract
     eng.call_contracts["get_derivative"] = lambda eng, args, kw: dval
     delay_log = []
-    model = VObj(VClass("Model"), {"states": VList([vs]), "der_states": VList([ds]), "alg_states": VList([va, vb]), "equations": VList(list(eqs)),
+    model = M.new_model(eng, {"states": VList([vs]), "der_states": VList([ds]), "alg_states": VList([va, vb]), "equations": VList(list(eqs)),
                                    "initial_equations": VList([E("opaque", value=z3.RealVal(7))]), "delay_arguments": VList([("d",)])})
     model.cls.attrs["_substitute_delay_arguments"] = _delay_recorder(delay_log)
     opts = VDict([("eliminable_variable_expression", "_.*"), ("expand_mx", True)])
@@ -165,7 +165,7 @@ def h_alias_counting(eng):
         c_, a_ = t[5:].split("~")
         eng.call(eng.getattr(rel, "add"), [c_, a_], {})          # the relation as an earlier pass left it
     delay_log = []
-    model = VObj(VClass("Model"), {"states": VList([V["s"], V["s2"]]), "der_states": VList([V["der(s)"]]), "alg_states": VList([V["x"], V["y"], V["z"]]),
+    model = M.new_model(eng, {"states": VList([V["s"], V["s2"]]), "der_states": VList([V["der(s)"]]), "alg_states": VList([V["x"], V["y"], V["z"]]),
                                    "inputs": VList([]), "parameters": VList([V["p"]]), "constants": VList([]), "alias_relation": rel,
                                    "equations": VList(list(eqs)), "initial_equations": VList([E("opaque", value=z3.RealVal(7))]),
                                    "delay_arguments": VList([("d",)])})
@@ -242,7 +242,7 @@ def h_eliminable_counting_real(eng):
     eqs = [mk(t) for t in lst]
     eng.call_contracts["get_derivative"] = lambda eng, args, kw: E("opaque", value=z3.RealVal(99))
     delay_log = []
-    model = VObj(VClass("Model"), {"states": VList([vs]), "der_states": VList([ds]), "alg_states": VList([va, vb]), "equations": VList(list(eqs)),
+    model = M.new_model(eng, {"states": VList([vs]), "der_states": VList([ds]), "alg_states": VList([va, vb]), "equations": VList(list(eqs)),
                                    "initial_equations": VList([E("opaque", value=z3.RealVal(7))]), "delay_arguments": VList([("d",)])})
     model.cls.attrs["_substitute_delay_arguments"] = _delay_recorder(delay_log)
     opts = VDict([("eliminable_variable_expression", "_.*"), ("expand_mx", True)])
@@ -305,7 +305,7 @@ def h_replace_blocks(eng):
     consts = [var("c_num", "number"), var("c_expr", "expr")]
     eqs, ieqs = VList([E("opaque", value=z3.RealVal(1))]), VList([E("opaque", value=z3.RealVal(2))])
     delay_log, meta_log = [], []
-    model = VObj(VClass("Model"), {"parameters": VList(list(params)), "constants": VList(list(consts)), "equations": eqs, "initial_equations": ieqs,
+    model = M.new_model(eng, {"parameters": VList(list(params)), "constants": VList(list(consts)), "equations": eqs, "initial_equations": ieqs,
                                    "delay_arguments": VList([("d",)]), "alias_relation": VObj(VClass("AliasRelation"))})
     model.cls.attrs["_substitute_delay_arguments"] = _delay_recorder(delay_log)
 
